@@ -135,6 +135,8 @@ class Model:
         rho_next = P.step_density(rho, q, q_up, lam, L, T)
         if cfg.link_cls == "LinkWithVsl":
             vsl = [0] if cfg.n1 else [1, 3]  # the concrete limited segments of wire.py
+            if getattr(cfg, "vsl_empty", False):
+                vsl = []
             Veq = P.controlled_Veq(
                 rho, V("v_ctrl", "SELF.vsl"), vsl, _p("SELF", "alpha"),
                 _p("SELF", "v_free"), _p("SELF", "rho_crit"), _p("SELF", "a"))
